@@ -287,6 +287,8 @@ func init() {
 			"Choquet values with a gap within 1% of the 1e-5 grouping distance are skipped as fragile"},
 		streams: []*stream{
 			{name: "random", n: tierN(36000, 900000), unit: 6000, run: c03Random, floors: map[string]int64{"values_checked": 20000, "after_fired_bias": 3000}},
+			{name: "random-service", n: tierN(6000, 100000), unit: 3000, run: c03Random, service: true,
+				note: "the same generator and oracle as the stream named in front of the dash, but every request goes through decideHandler of main.go in-process (gin binding, the handler's own request object) after a history of 1..3 unrelated requests (accepted and rejected)"},
 			{name: "choquetTies", n: tierN(6000, 150000), unit: 3000, run: c03ChoquetTies, floors: map[string]int64{"values_checked": 5000}},
 		},
 	})
